@@ -140,6 +140,23 @@ Definition macro_of (x acc : ident) (init cond step res : cexpr) : option macro 
   | _, _, _, _ => None
   end.
 
+Definition const_sty (k : cconst) : option sty :=
+  match k with
+  | KBool _ => Some SBool
+  | KInt z => if in_i64 z then Some (SKInt false z) else None
+  | KUint z => if in_u64 z then Some (SKInt true z) else None
+  | KDouble b => if dbl_lit_ok b then Some (SKDbl b) else None
+  | KString s => Some (SKStr s)
+  | _ => None
+  end.
+
+(* a numeric literal that Go can compare with an operand of type ta *)
+Definition lit_ok_for (ta : sty) (c : cexpr) : bool :=
+  match c with
+  | EConst k => is_numeric_const c && match const_sty k with Some tc => cmp_ok OpEq ta tc | None => false end
+  | _ => false
+  end.
+
 Fixpoint cty (G : tenv) (e : cexpr) : option sty :=
   match e with
   | EIdent x =>
@@ -148,15 +165,7 @@ Fixpoint cty (G : tenv) (e : cexpr) : option sty :=
       else glookup (te_vars G) x
   | ESelect (EIdent x) f false => if bytes_eqb x s_this && negb (existsb (fun v => bytes_eqb (fst v) s_this) (te_vars G)) then field_sty G f else None
   | ESelect _ _ _ => None
-  | EConst k =>
-      match k with
-      | KBool _ => Some SBool
-      | KInt z => if in_i64 z then Some (SKInt false z) else None
-      | KUint z => if in_u64 z then Some (SKInt true z) else None
-      | KDouble b => Some (SKDbl b)
-      | KString s => Some (SKStr s)
-      | _ => None
-      end
+  | EConst k => const_sty k
   | ECall1 fn a =>
       match fn, cty G a with
       | FNot, Some SBool => Some SBool
@@ -182,12 +191,7 @@ Fixpoint cty (G : tenv) (e : cexpr) : option sty :=
               if is_strlike ta then
                 if forallb (fun c => match c with EConst (KString _) => true | _ => false end) (x :: r) then Some SBool else None
               else match ta with
-                   | SInt k => if not_dur k && forallb (fun c => match c with
-                                                                  | EConst (KInt z) | EConst (KUint z) => in_kind k z
-                                                                  | _ => false end) (x :: r)
-                               then Some SBool else None
-                   | SF64 => if forallb (fun c => match c with EConst (KDouble d) => dbl_lit_ok d | _ => false end) (x :: r)
-                             then Some SBool else None
+                   | SInt _ | SF64 => if forallb (lit_ok_for ta) (x :: r) then Some SBool else None
                    | _ => None
                    end
           | Some ta, _ =>
@@ -204,7 +208,10 @@ Fixpoint cty (G : tenv) (e : cexpr) : option sty :=
               end
           | None, _ => None
           end
-      | FMatches => match cty G a, cty G b with Some ta, Some tb => if is_strlike ta && is_strlike tb then Some SBool else None | _, _ => None end
+      | FMatches => match cty G a, b with
+                    | Some ta, EConst (KString _) => if is_strlike ta then Some SBool else None     (* a constant pattern: checked at generation time *)
+                    | _, _ => None
+                    end
       | _ =>
           match cty G a, cty G b with
           | Some ta, Some tb =>
@@ -218,8 +225,13 @@ Fixpoint cty (G : tenv) (e : cexpr) : option sty :=
       end
   | EMeth1 fn t a =>
       match fn with
-      | FContains | FStartsWith | FEndsWith | FMatches =>
+      | FContains | FStartsWith | FEndsWith =>
           match cty G t, cty G a with Some tg, Some ta => if is_strlike tg && is_strlike ta then Some SBool else None | _, _ => None end
+      | FMatches =>
+          match cty G t, a with
+          | Some tg, EConst (KString _) => if is_strlike tg then Some SBool else None
+          | _, _ => None
+          end
       | _ => None
       end
   | ECompr x r acc init cond step res =>
